@@ -30,7 +30,19 @@ def run_counting(cfg, devs, t_end, stim):
 
     class BlockingIo:
         async def setup(self, adapter, raise_interrupt):
+            adapter.raise_interrupt = raise_interrupt
             await asyncio.Event().wait()
+
+    class InterruptingAdapter:
+        """raises an interrupt from after_update on two updates out of three: the interrupt reaches the nested
+        scheduler while the tick that updated the device is still running"""
+        def __init__(self):
+            self.n, self.raise_interrupt = 0, None
+
+        def after_update(self):
+            self.n += 1
+            if self.n % 3 != 0 and self.raise_interrupt is not None:
+                asyncio.get_event_loop().create_task(self.raise_interrupt())
 
     counts = {}
 
@@ -61,14 +73,18 @@ def run_counting(cfg, devs, t_end, stim):
         on_start(loop, sched)
         loop.step_hook = hook_factory()
 
-    r = slevel.run_internal(cfg, devs, (1, 1), 0, stim, t_end, adapters={d: (lambda: [AdapterContainer(BlockingAdapter(), BlockingIo())])
-                                                                         for d in slevel.devices_of(cfg)}, on_start=on_start2)
+    inner = [d for d in slevel.devices_of(cfg) if slevel.path_of(cfg, d)[1]]
+    noisy = inner[:1]          # one device inside a system simulation interrupts in the middle of ticks
+    r = slevel.run_internal(cfg, devs, (1, 1), 0, stim, t_end,
+                            adapters={d: ((lambda: [AdapterContainer(InterruptingAdapter(), BlockingIo())]) if d in noisy else
+                                          (lambda: [AdapterContainer(BlockingAdapter(), BlockingIo())]))
+                                      for d in slevel.devices_of(cfg)}, on_start=on_start2)
     res["ticks"] = len(r["mticks"])
     res["error"] = r["error"] or (r["errors"][:1] or None)
     return res
 
 
-def tcp_counts(n, streaming=False):
+def tcp_counts(n, streaming=False, watch=False):
     """n chunks on one connection; how many reply tasks does the handler still hold?
     streaming: the connection starts with a never-ending on_connect readback (a long-lived reply task)"""
     from tickit.adapters.io.tcp_io import TcpIo
@@ -79,6 +95,13 @@ def tcp_counts(n, streaming=False):
         @RegexCommand(rb"P", False)
         async def p(self):
             return b"ok"
+
+        @RegexCommand(rb"W", False)
+        async def w(self):
+            async def readback():
+                yield b"watching"
+                await asyncio.Event().wait()     # a continuous readback answered to one command: never finishes
+            return readback()
 
         async def on_connect(self):
             if streaming:
@@ -106,7 +129,7 @@ def tcp_counts(n, streaming=False):
                 out["task_objects"] = sum(1 for o in gc.get_objects() if isinstance(o, asyncio.Task))
                 measured.set()
                 return b""
-            return b"P"
+            return b"W" if (watch and self.k == 1) else b"P"
 
     class Writer:
         def write(self, d):
@@ -186,6 +209,7 @@ def main(tier, seed):
             bad.setdefault(i, []).append(151)
     tcp = [tcp_counts(n) for n in (N, 2 * N, 4 * N)]
     tcp_s = [tcp_counts(n, streaming=True) for n in (N, 2 * N, 4 * N)]
+    tcp_w = [tcp_counts(n, watch=True) for n in (N, 2 * N, 4 * N)]
     ck.count("tcp", True)
     ck.evaluations += 3 * len(cases) + 2
     ck.rule = (f"flat, nested and doubly nested configurations plus random ones, every device with a blocking adapter task and periodic "
@@ -204,7 +228,8 @@ def main(tier, seed):
             d = sprops.describe(dict(c, speed=(1, 1), initial=0, stim=[]))
             d.update(kind="counts", counts=c["counts"], codes=bad[i])
             ck.report(REASONS[code], f"resource counts over runs of N, 2N, 4N ticks: {[(x['ticks'], x['tasks'], x['timers']) for x in c['counts']]}: {REASONS[code]}", d)
-    for name, tc in (("", tcp), (" with a never-ending on_connect readback", tcp_s)):
+    for name, tc in (("", tcp), (" with a never-ending on_connect readback", tcp_s),
+                     (" whose first command is answered by a never-ending readback", tcp_w)):
         if not (tc[2].get("task_objects", 10**9) <= tc[0].get("task_objects", 0) + 2 and tc[2].get("live_tasks", 10**9) <= tc[0].get("live_tasks", 0) + 2):
             ck.report(REASONS[154] + ("-streaming" if name else ""),
                       f"TCP handler after N, 2N, 4N chunks on one connection{name}: {[t.get('task_objects') for t in tc]} Task objects alive, "
